@@ -92,6 +92,16 @@ def cases(rng, tier):
             f[rng.randrange(0, n)] = rng.randrange(-9, 10)
         if f[0] == 0: f[0] = rng.choice([1, -1, 2, 7, -5])
         add(f, 'sparse-deg-mod4=%d' % (n % 4))
+    # quadrinomials x^n + a x^k + b x^j + c for EVERY pair k > j >= 1 (and their translates x -> x + 1, which are dense but have
+    # the same degree sequence): consecutive degree gaps >= 2 in the remainder sequence of (f, f') occur only for such shapes,
+    # e.g. x^6 + a x^3 + b x + c has degrees 6, 5, 3, 1, 0
+    for n in range(5, 9 if not th else 12):
+        for k in range(2, n):
+            for j in range(1, k):
+                f = [0] * (n + 1)
+                f[n] = rng.choice([1, 1, -1, 2]); f[k] = rng.choice([1, 2, -2, 3]); f[j] = rng.choice([1, -1, -2, 5]); f[0] = rng.choice([1, -1, 2, 3])
+                add(f, 'quadrinomial-deg%d' % n)
+                if (k + j) % 3 == 0 or th: add(R.pcompose_shift(f, rng.choice([1, -1, 2])), 'quadrinomial-translate')
     # repeated factors
     for k in range(80 if not th else 800):
         h = R.rpoly(rng, rng.randrange(1, 4), rng.choice([2, 6, 20]))
